@@ -597,16 +597,36 @@ func cmdHistory(args []string) {
 		if thorough {
 			stride = 1
 		}
+		// objects on which a configurable lint judges (found by a probe run in another process, so nothing is warmed up here)
+		matter := map[string]bool{}
+		if p := os.Getenv("VERIF_USE_IDS"); p != "" {
+			var ids []string
+			if b, err := os.ReadFile(p); err == nil && json.Unmarshal(b, &ids) == nil {
+				for _, id := range ids {
+					matter[id] = true
+				}
+			}
+		}
 		for oi := range objs {
-			if only != "" || objs[oi].Kind != "cert" || oi%stride == int(seed)%stride || strings.HasPrefix(objs[oi].ID, "forged:") {
+			if only != "" || objs[oi].Kind != "cert" || oi%stride == int(seed)%stride || strings.HasPrefix(objs[oi].ID, "forged:") || matter[objs[oi].ID] {
 				use = append(use, oi)
 			}
 		}
-		for _, oi := range use {
-			h.lint(oi, 0, "cfg-baseline", false)
+		// VERIF_BASELINE=last: the unconfigured runs come after all the configured ones and the catalogue is walked backwards,
+		// so that two processes meet every (object, configuration) with different pasts (their traces are merged per object)
+		baselineLast := os.Getenv("VERIF_BASELINE") == "last"
+		if !baselineLast {
+			for _, oi := range use {
+				h.lint(oi, 0, "cfg-baseline", false)
+			}
 		}
 		ids := append([]string{}, h.cat.ids...)
 		rng.Shuffle(len(ids), func(i, j int) { ids[i], ids[j] = ids[j], ids[i] })
+		if baselineLast {
+			for i, j := 0, len(ids)-1; i < j; i, j = i+1, j-1 {
+				ids[i], ids[j] = ids[j], ids[i]
+			}
+		}
 		for ci, id := range ids {
 			target := []int{0, child, small}[ci%3]
 			h.setCfg(target, id)
@@ -626,8 +646,53 @@ func cmdHistory(args []string) {
 				}
 			}
 		}
+		if baselineLast {
+			for _, oi := range use {
+				h.lint(oi, 0, "cfg-baseline-last", false)
+			}
+		}
 		sum["configurations"] = len(ids)
 		sum["configurable"] = h.cat.configurable
+	}
+
+	if phases["cfgfirst"] {
+		// ---- C05/C11: the FIRST thing this process does with the objects that matter is to lint them under one option-changing
+		// configuration (VERIF_FIRSTCFG picks it); the unconfigured run and the other configurations follow.  One process per
+		// choice, traces merged per object: a verdict remembered under a key that forgets the configuration shows as a conflict.
+		var vals []string
+		for _, id := range h.cat.ids {
+			if strings.HasPrefix(id, "val:") {
+				vals = append(vals, id)
+			}
+		}
+		matter := map[string]bool{}
+		if p := os.Getenv("VERIF_USE_IDS"); p != "" {
+			var ids []string
+			if b, err := os.ReadFile(p); err == nil && json.Unmarshal(b, &ids) == nil {
+				for _, id := range ids {
+					matter[id] = true
+				}
+			}
+		}
+		var use []int
+		for oi := range objs {
+			if matter[objs[oi].ID] || only != "" {
+				use = append(use, oi)
+			}
+		}
+		first := 0
+		fmt.Sscan(os.Getenv("VERIF_FIRSTCFG"), &first)
+		if len(vals) > 0 {
+			order := append([]string{vals[first%len(vals)], "empty"}, vals...)
+			for k, id := range order {
+				h.setCfg(0, id)
+				for _, oi := range use {
+					h.lint(oi, 0, fmt.Sprintf("cfgfirst%d", k), false)
+				}
+			}
+			h.setCfg(0, "empty")
+		}
+		sum["cfgfirst_values"] = len(vals)
 	}
 
 	if phases["model"] {
@@ -770,3 +835,24 @@ func replayModelHistories(h *history, rng *rand.Rand, path string) int {
 
 var _ = bytes.Equal
 var _ = zlint.Version
+
+// cmdCfgProbe lists the objects on which some configurable lint reports a finding under the empty
+// configuration: the configuration histories must include them, whatever the sampling stride.
+func cmdCfgProbe(args []string) {
+	parseFlags(args)
+	g := lint.GlobalRegistry()
+	var ids []string
+	for _, t := range loadTargets(corpus.Load()) {
+		for _, l := range lintsOf(g, t.Kind) {
+			if !l.Cfgable {
+				continue
+			}
+			l := l
+			if r := execOne(&l, t, g.GetConfiguration()); r.Obs > 3 {
+				ids = append(ids, t.ID)
+				break
+			}
+		}
+	}
+	ev.WriteJSON(out("ids.json"), ids)
+}
